@@ -131,7 +131,15 @@ mod driver {
             let mut engine = engine;
             let res = if case["__params"]["fail"].as_bool().unwrap_or(false) {
                 if let Some(f) = failed {
-                    let _ = engine.handle_node_failure(f).await;
+                    if case["__params"]["readd"].as_bool().unwrap_or(false) {
+                        // the peer is announced again under another address before it fails / is evicted
+                        let _ = engine.routing_table.write().await.add_node(mk(*f.as_bytes(), 999));
+                    }
+                    if case["__params"]["evict"].as_bool().unwrap_or(false) {
+                        let _ = engine.evict_node(&f, EvictionReason::CloseGroupRejection).await;
+                    } else {
+                        let _ = engine.handle_node_failure(f).await;
+                    }
                 }
                 engine.find_nodes(&key, count).await.unwrap_or_default()
             } else {
